@@ -32,6 +32,10 @@ class _ViolationSignal(BaseException):
         self.msg = msg
 
 
+class PathTimeout(BaseException):
+    """one path ran longer than the per-path wall-clock budget (non-termination candidate)"""
+
+
 class SplitPoint(BaseException):
     """Raised in prefix-enumeration mode when a path reaches the split depth."""
 
@@ -846,8 +850,23 @@ def record_violation(msg, m):
                                    path=[t[0] for t in CTX.trail[:CTX.pos]]))
 
 
+def _alarm(seconds):
+    import signal
+    if seconds and hasattr(signal, "setitimer"):
+        def h(sig, frm):
+            raise PathTimeout()
+        signal.signal(signal.SIGALRM, h)
+        signal.setitimer(signal.ITIMER_REAL, seconds)
+
+
+def _alarm_off():
+    import signal
+    if hasattr(signal, "setitimer"):
+        signal.setitimer(signal.ITIMER_REAL, 0)
+
+
 def explore(fn, prefix=None, split_depth=None, on_path=None, max_paths=None, deadline=None,
-            expect=(Exception,)):
+            expect=(Exception,), path_timeout=None, stop_on_violation=False):
     """Run fn() once per feasible path.
 
     prefix      list of [decision, payload] forced at the start (worker side of prefix splitting)
@@ -863,7 +882,11 @@ def explore(fn, prefix=None, split_depth=None, on_path=None, max_paths=None, dea
         while True:
             CTX.new_path()
             try:
-                res = fn()
+                _alarm(path_timeout)
+                try:
+                    res = fn()
+                finally:
+                    _alarm_off()
                 m = CTX.ensure_model()
                 CTX.stats["paths"] += 1
                 if on_path is not None:
@@ -872,6 +895,15 @@ def explore(fn, prefix=None, split_depth=None, on_path=None, max_paths=None, dea
                 CTX.stats["aborted"] += 1
             except SplitPoint:
                 prefixes.append([[t[0], t[2]] for t in CTX.trail])
+            except PathTimeout:
+                _alarm_off()
+                try:
+                    m = CTX.ensure_model()
+                except (PathAbort, Inconclusive):
+                    raise Inconclusive("a path exceeded its time budget and no model is available")
+                CTX.stats["paths"] += 1
+                CTX.stats["obligations"] += 1
+                record_violation(f"non-termination: one execution path ran longer than {path_timeout}s", m)
             except (Inconclusive, KeyboardInterrupt, SystemExit, MemoryError):
                 raise
             except expect as ex:  # unexpected exception escaping the code under test
@@ -892,6 +924,8 @@ def explore(fn, prefix=None, split_depth=None, on_path=None, max_paths=None, dea
                     CTX.stats["paths"] += 1
                     CTX.stats["obligations"] += 1
                     record_violation(f"unexpected {type(ex).__name__}: {ex}{where}", m)
+            if stop_on_violation and CTX.violations:
+                break
             if max_paths is not None and CTX.stats["paths"] >= max_paths:
                 raise Inconclusive("path budget exceeded")
             if deadline is not None and time.time() > deadline:
